@@ -76,7 +76,8 @@ def extra_eval(c, io, mo):
     return fails
 
 
-CFG = DC.Config("C14", D.ALL_KINDS, make_cmds, nsets=(5, 30), big=False, extra_eval=extra_eval, params_fn=params_fn, timeout_case=120,
+from props import gen_hashdict
+CFG = DC.Config("C14", D.ALL_KINDS, make_cmds, components=[gen_hashdict], nsets=(5, 14), big=False, extra_eval=extra_eval, params_fn=params_fn, timeout_case=120,
                 rule="all 13 kinds (reloaded object): each query once on the pristine object (own forked copy), then a history of ~150-250 "
                      "calls in ONE process - shuffled with repeats and failed lookups, descending / ascending / zig-zag id walks, groups of "
                      "up to three iterators (prefix, substring, table) open at once and drained round-robin - then every query again; all "
